@@ -559,6 +559,13 @@ def r55_56(db, ctx):
             seqe = m(('at', '$seq', tgc[2]), reads[0][2][0])['$seq'] if src_ok else None
             # the stored value is the success payload of from_ascii(..)? : nothing else is applied to it
             payload = vc == ('fld', ('down', ('call', 'core::ops::try_trait::Try::branch', (reads[0],)), 'Continue'), '0') if reads else False
+            if reads and not payload and vc == ('fld', ('down', reads[0], 'Ok'), '0'):
+                # `match from_ascii(c) { Ok(s) => dst[i] = s, Err(e) => return Err(e) }`: the Err side of that match must return an error
+                from .C09 import returns_err
+                for r_ in G.relations(f, R, s_['block']):
+                    if r_[0] == 'switch' and CA.canon(r_[1]) == ('discr', reads[0]):
+                        others = [t_ for t_ in f.succs(r_[-1]) if not f.dominates(t_, s_['block']) and f.term(t_)['k'] != 'unreachable']
+                        payload = bool(others) and all(returns_err(f, t_) for t_ in others)
             ext = CA.extents.get(L, [])
             whole = bool(ext) and seqe is not None and all(c_[0] == 'len' and c_[1] in (seqe, tgc[1]) for c_ in ext) and any(c_[1] == seqe for c_ in ext)
             if tgc[1] == ('p', 3) and src_ok and payload and whole and seqe in (('p', 2), ('call', 'core::convert::AsRef::as_ref', (('p', 2),))):
